@@ -21,6 +21,24 @@ The translation (one fixed rendering per construct; the rendering of a subscript
   if c: return A  else: return B       ->  if c then (do A) else (do B)
   if isinstance(p, int): A             ->  match p with | .int p => (do A) | .arr p => (do rest)
     rest                                   (p a parameter annotated Union[np.ndarray, int]; A must end in return)
+  if c: S                              ->  let self ← (
+    rest                                     if c then do
+                                               S'
+                                               pure self
+                                             else
+                                               pure self)
+                                           rest'
+       a conditional that FALLS THROUGH, in a stateful method only: no else, no `return` anywhere inside S, and S binds
+       no local name (a `let` inside the branch would not escape it, in Python it does) — S may only store to attributes
+       of a nested estimator and call things that return a new estimator, i.e. re-bind `self`, which the branch yields
+  self.<nested>.a = E                  ->  let self := { self with <nested> := { self.<nested> with <field> := E } }
+       (stateful method; <nested> a direct field of the object: module_b; a one of BaseART's W, weight_sample_counter_,
+       sample_counter_, labels_ (table STORE_FIELDS), E of the field's type; storing W also creates the attribute:
+       `W := E, hasW := true`, the rendering ctrans uses for `self.module_a.W = …` in SimpleARTMAP)
+  not c                                ->  (!c)
+  hasattr(self, "labels_")  (in ARTMAP) -> self.smap.hasLabels     (the attribute SimpleARTMAP.fit / partial_fit create)
+  []                                   ->  []            only as the stored value E of a list attribute (typed by it)
+  np.zeros((n,), dtype=int)            ->  (List.replicate n 0)     (n = 0: the empty label vector)
   self.a                               ->  self.<field>      a an attribute of the class (table ATTRS), e.g.
                                            ARTMAP: module_b -> self.module_b, module_a -> self.smap.a, map -> self.smap.map
   o.a   (o a nested estimator)         ->  o.<field>         (BaseART attributes: W, labels_)
@@ -96,7 +114,10 @@ COVERS = ("ARTMAP.fit / partial_fit / predict / predict_ab / predict_regression 
           "(artlib/supervised/ARTMAP.py), SimpleARTMAP.predict_ab / labels_a / labels_b / labels_ab / n_clusters / "
           "n_clusters_a / n_clusters_b (artlib/supervised/SimpleARTMAP.py), BaseARTMAP.map_a2b (artlib/common/BaseARTMAP.py) "
           "and the BaseART.n_clusters property are translated and proved equal to ArtModel/ARTMAP's artmapFit (any "
-          "max_iter: fitEpochs / smapFitEpochs), artmapPartialFit, smapPredict, smapPredictAB, mapA2B / mapGet; "
+          "max_iter: fitEpochs / smapFitEpochs), artmapPartialFit (from a state whose B-side is emptied on the host's first batch: "
+          "artmapPartialFitHost in ARTMAPSpec.lean — the reset `if not hasattr(self, 'labels_'): self.module_b.W = [] …` of "
+          "ARTMAP.partial_fit is translated, and proved to make the first batch independent of module_b's past and equal to "
+          "fit), smapPredict, smapPredictAB, mapA2B / mapGet; "
           "super(ARTMAP, self).fit/partial_fit/predict and module_b.fit/partial_fit are calls of the definitions ctrans "
           "generates from SimpleARTMAP.py / BaseART.py (ArtGen/Control.lean, tied to the model by ControlFit.lean for "
           "elementary modules with a scalar vigilance: scalarExt), module_b.get_cluster_centers() is the abstract field "
@@ -108,7 +129,9 @@ THEOREMS = [
     "ARTMAP.accessors_spec", "ARTMAP.n_clusters_spec", "ARTMAP.n_clusters_b_spec",
     "ARTMAP.smap_predict_ab_spec", "ARTMAP.smap_predict_ab_model",
     "ARTMAP.predict_spec", "ARTMAP.predict_model", "ARTMAP.predict_ab_spec", "ARTMAP.predict_regression_spec",
-    "ARTMAP.fit_spec", "ARTMAP.fit_model", "ARTMAP.partial_fit_model",
+    "ARTMAP.fit_spec", "ARTMAP.fit_model",
+    "ARTMAP.partial_fit_split", "ARTMAP.partial_fit_model", "ARTMAP.partial_fit_first_batch_indep",
+    "ARTMAP.partial_fit_first_batch_eq_fit", "ARTMAP.partial_fit_later_batch",
     "ARTMAP.gen_fit_map_inv", "ARTMAP.gen_fit_map_a2b_labels", "ARTMAP.gen_partial_fit_map_inv",
     "ARTMAP.gen_partial_fit_map_a2b_labels", "ARTMAP.gen_predict_eq_map_of_predict_a",
 ]
@@ -155,7 +178,11 @@ ATTRS = {
     "ARTMAP": {"module_b": ("module_b", ("base", "B")), "module_a": ("smap.a", ("base", "A")),
                "map": ("smap.map", "dict"), "labels_": ("smap.labelsB", LNAT)},
 }
-HASATTR = {"BaseART": {"W": "hasW"}}
+HASATTR = {"BaseART": {"W": "hasW"}, "ARTMAP": {"labels_": "smap.hasLabels"}}
+# attributes of a nested BaseART estimator that a host may store to: python attribute -> (field, type, what else the store sets)
+STORE_FIELDS = {"W": ("W", ("list", "Wt?"), ", hasW := true"), "weight_sample_counter_": ("cnt", LNAT, ""),
+                "sample_counter_": ("n", "nat", ""), "labels_": ("labels", LNAT, "")}
+ANYLIST = ("list", "?")        # the type of the display `[]`: accepted only where a list type is expected (an attribute store)
 # seeing an object of class C as an instance of its ancestor D
 UPCAST = {("artmap", "smap"): ".smap", ("smap", "smap"): "", ("artmap", "artmap"): ""}
 # guards (dropped, see DROPPED)
@@ -390,6 +417,13 @@ def ex(e: ast.AST, cx: Ctx):
         return "(" + ", ".join(p[0] for p in parts) + ")", ("rec", [(k.value, p[1]) for k, p in zip(e.keys, parts)])
     if isinstance(e, ast.Subscript):
         return subscript(e, cx)
+    if isinstance(e, ast.UnaryOp) and isinstance(e.op, ast.Not):
+        a, t = ex(e.operand, cx)
+        if t != "bool":
+            raise Unsupported(f"not of a value of type {t}")
+        return f"(!{a})", "bool"
+    if isinstance(e, ast.List) and not e.elts:
+        return "[]", ANYLIST
     if isinstance(e, (ast.ListComp, ast.GeneratorExp)):
         if len(e.generators) != 1 or e.generators[0].ifs or e.generators[0].is_async or not isinstance(e.generators[0].target, ast.Name):
             raise Unsupported("comprehension with several generators, a filter or a pattern target")
@@ -463,6 +497,12 @@ def call(e: ast.Call, cx: Ctx):
             if not islist(t) or (e.keywords and t != LNAT):
                 raise Unsupported(f"np.array of {t}")
             return a, t
+        if f.attr == "zeros" and len(e.args) == 1 and isinstance(e.args[0], ast.Tuple) and len(e.args[0].elts) == 1 \
+                and [src(k) for k in e.keywords] == ["dtype=int"]:
+            n, nt = ex(e.args[0].elts[0], cx)
+            if nt != "nat":
+                raise Unsupported(f"np.zeros of length type {nt}")
+            return f"(List.replicate {paren(n)} 0)", LNAT
         if f.attr == "unique" and len(e.args) == 1 and [src(k) for k in e.keywords] == ["return_inverse=True"]:
             a, t = ex(e.args[0], cx)
             if t != LNAT:
@@ -661,7 +701,34 @@ def wrap_return(v, vt, rty, cx: Ctx):
     return f"pure (self, {v})" if cx.stateful else f"pure {v}"
 
 
-def block(stmts, cx: Ctx, rty, I="  ") -> list[str]:
+def has_return(stmts) -> bool:
+    return any(isinstance(n, ast.Return) for s in stmts for n in ast.walk(s))
+
+
+def attribute_store(t: ast.Attribute, value, cx: Ctx) -> str:
+    """self.<nested>.a = E  ->  the line that re-binds `self`"""
+    if not cx.stateful:
+        raise Unsupported("a pure method stores to an attribute")
+    if not (isinstance(t.value, ast.Attribute) and is_self(t.value.value)):
+        raise Unsupported(f"assignment target {src(t)}: only attributes of a nested estimator (self.<nested>.a) are stored to")
+    o, ot = ex(t.value, cx)
+    if not (isinstance(ot, tuple) and ot[0] == "base") or t.attr not in STORE_FIELDS:
+        raise Unsupported(f"store to {src(t)}: not a known attribute of a nested estimator")
+    proj = o[len("self."):]
+    if "." in proj or not o.startswith("self."):
+        raise Unsupported(f"state-writing store on {src(t.value)}")
+    fld, fty, extra = STORE_FIELDS[t.attr]
+    if fty == ("list", "Wt?"):
+        fty = ("list", "Wt" + ot[1])
+    v, vt = ex(value, cx)
+    if not (vt == fty or (vt == ANYLIST and islist(fty))):
+        raise Unsupported(f"store to {src(t)}: value of type {vt}, the attribute has {fty}")
+    return f"let self := {{ self with {proj} := {{ {o} with {fld} := {v}{extra} }} }}"
+
+
+def block(stmts, cx: Ctx, rty, I="  ", fallthrough=False) -> list[str]:
+    """statements -> lines of a `do` block; fallthrough: the body of a conditional without else — it may not return or
+    bind a local name, and yields the (re-bound) `self`"""
     out = []
     stmts = [s for s in stmts if not is_doc(s)]                       # DROPPED: docstrings
     for idx, s in enumerate(stmts):
@@ -669,6 +736,8 @@ def block(stmts, cx: Ctx, rty, I="  ") -> list[str]:
         if is_guard(s):                                               # DROPPED: guards
             continue
         if isinstance(s, ast.Return):
+            if fallthrough:
+                raise Unsupported("return inside a conditional that falls through")
             if rest:
                 raise Unsupported("code after return")
             if s.value is None:
@@ -697,6 +766,11 @@ def block(stmts, cx: Ctx, rty, I="  ") -> list[str]:
             continue
         if isinstance(s, ast.Assign) and len(s.targets) == 1:
             t = s.targets[0]
+            if isinstance(t, ast.Attribute):
+                out.append(I + attribute_store(t, s.value, cx))
+                continue
+            if fallthrough:
+                raise Unsupported(f"{src(t)} is bound inside a conditional that falls through (the binding would not escape)")
             if isinstance(t, ast.Name) and t.id != "self":
                 sc = stateful_call(s.value, cx)
                 if sc:
@@ -706,6 +780,8 @@ def block(stmts, cx: Ctx, rty, I="  ") -> list[str]:
                     out += [I + ln for ln in lines] + [I + f"let {t.id} := {v}"]
                 else:
                     v, vt = ex(s.value, cx)
+                    if vt == ANYLIST:
+                        raise Unsupported(f"{t.id} = []: a list display has no element type of its own")
                     out.append(I + f"let {t.id} := {v}")
                 cx.vars[t.id] = vt
                 continue
@@ -745,8 +821,22 @@ def block(stmts, cx: Ctx, rty, I="  ") -> list[str]:
                 out.append(I + "else")
                 out += block(s.orelse, cx.copy(), rty, I + "  ")
                 return out
-            raise Unsupported(f"if statement {src(s.test)}: only `if c: return A else: return B` and the isinstance test")
+            if not s.orelse and not has_return(s.body) and cx.stateful and (rest or fallthrough):
+                # if c: S ; rest      (S falls through)
+                ct, cty = ex(c, cx)
+                if cty != "bool":
+                    raise Unsupported(f"condition of type {cty}")
+                out.append(I + "let self ← (")
+                out.append(I + f"  if {ct} then do")
+                out += block(s.body, cx.copy(), rty, I + "    ", fallthrough=True)
+                out.append(I + "  else")
+                out.append(I + "    pure self)")
+                continue
+            raise Unsupported(f"if statement {src(s.test)}: only `if c: return A else: return B`, the isinstance test and "
+                              "`if c: S` that falls through (no else, no return, no local binding in S)")
         raise Unsupported(f"statement {type(s).__name__}: {src(s)[:80]}")
+    if fallthrough:
+        return out + [I + "pure self"]
     raise Unsupported("method falls off its end")
 
 
